@@ -20,19 +20,26 @@ Count(q, x) == Cardinality({i \in DOMAIN q : q[i] = x})
 \* tnil: a non-nil "err" result is an error interface holding a nil pointer (a non-nil error all the same)
 \* once: the function is a run-once function;  second: the observed call is the second call of the function
 \* object (with fail: the first call was given the missing input and succeeded, the observed one is not)
-Descs == { [rs |-> rs, nonnil |-> nn, fail |-> f, tnil |-> tn, once |-> o, second |-> sc] :
+\* how: "" the function is called directly;  "redef" it is called through its redefinition f.Redefine() (the redefined function
+\*      returns what the original returns - except that next to a non-nil final error it returns zero values);
+\*      "nilarg" the call is given a nil option, "generr" a converter generator that reports an error and a value for it to be
+\*      asked about: both fail before anything is resolved (length 0, a non-nil error), also for a function without parameters
+Hows == {"", "redef", "nilarg", "generr"}
+Descs == { [rs |-> rs, nonnil |-> nn, fail |-> f, tnil |-> tn, once |-> o, second |-> sc, how |-> h] :
              rs \in {q \in Seqs(Kinds, 3) : Count(q, "T1") <= 1 /\ Count(q, "T2") <= 1 /\ Count(q, "cerr") <= 1}
                     \* a marker struct ("st") or a pointer to one ("pst", possibly nil) as the only result: one output, the struct itself
                     \cup {<<"st">>, <<"st", "err">>, <<"pst">>, <<"pst", "err">>},
-             nn \in [1..3 -> BOOLEAN], f \in BOOLEAN, tn \in BOOLEAN, o \in BOOLEAN, sc \in BOOLEAN }
+             nn \in [1..3 -> BOOLEAN], f \in BOOLEAN, tn \in BOOLEAN, o \in BOOLEAN, sc \in BOOLEAN, h \in Hows }
 Canon(d) == /\ \A i \in 1..3 : (i > Len(d.rs) \/ d.rs[i] \in {"T1", "T2", "st"}) => d.nonnil[i]   \* irrelevant flags fixed
             /\ d.tnil => \E i \in DOMAIN d.rs : d.rs[i] = "err" /\ d.nonnil[i]
             /\ d.once => d.second
+            /\ d.how # "" => (~d.once /\ ~d.second /\ ~d.tnil)
+            /\ d.how = "redef" => (~d.fail /\ \A i \in DOMAIN d.rs : d.rs[i] \notin {"st", "pst"})
 
 Tok(d, i) == IF d.rs[i] \in {"T1", "T2", "st"} \/ (d.nonnil[i] /\ ~(d.tnil /\ d.rs[i] = "err")) THEN i ELSE 0
 HasErr(d) == Len(d.rs) > 0 /\ d.rs[Len(d.rs)] = "err"
 Expected(d) ==
-  IF d.fail THEN [len |-> 0, outs |-> <<>>, outnil |-> <<>>, errnil |-> FALSE, errtok |-> 0, resolved |-> FALSE]
+  IF d.fail \/ d.how \in {"nilarg", "generr"} THEN [len |-> 0, outs |-> <<>>, outnil |-> <<>>, errnil |-> FALSE, errtok |-> 0, resolved |-> FALSE]
   ELSE LET n == IF HasErr(d) THEN Len(d.rs) - 1 ELSE Len(d.rs) IN
        [len |-> n, outs |-> [i \in 1..n |-> Tok(d, i)],
         \* Out(i) is the returned value itself: only a nil value of the INTERFACE type error is a nil interface - a nil
@@ -56,11 +63,11 @@ C17 == rec.ev = "obs" =>
    LET e == Expected(rec.desc) IN
    /\ rec.panic = ""
    /\ rec.len = e.len
-   /\ rec.outs = e.outs
-   /\ rec.outnil = e.outnil
+   \* (through a redefinition the outputs next to a non-nil final error are zero values: not compared)
+   /\ (rec.desc.how # "redef" \/ e.errnil) => (rec.outs = e.outs /\ rec.outnil = e.outnil)
    /\ rec.errnil = e.errnil
    /\ rec.errtok = e.errtok
-   /\ (~e.resolved) => rec.unsat
+   /\ (~e.resolved /\ rec.desc.how = "") => rec.unsat
 Accepted == TLCGet("stats").diameter - 1 = Len(Trace)
 Pos == [line |-> l, sid |-> 0]
 =============================================================================
